@@ -1002,21 +1002,35 @@ def gruneisen_nonhydrostatic(ctx, margins):
     require_actions_fired(ctx, res0, "GruneisenDegenerate", ["Rotate"])
     cases = [dict(id=1, entry="sc", S=diag(3, 3, 3), mats=[diag(3, 3, 3)], pm=None, mesh=[4, 4, 4], e=1e-3),
              dict(id=2, entry="naclg", S=I3, mats=[I3], pm="F", mesh=[4, 4, 4], e=2e-3)]
+    cases.append(dict(id=5, entry="tetab", S=diag(2, 2, 2), mats=[diag(2, 2, 2), [[1, -1, 0], [1, 1, 0], [0, 0, 2]]],
+                      pm=None, mesh=[4, 4, 2], e=1e-3, kind="shear"))
+    # one-sided triples: one strained cell, the other one is the reference geometry (the three cells do not share
+    # their point group, and it is not the minus cell that has the lowest symmetry)
+    cases.append(dict(id=6, entry="sc", S=diag(3, 3, 3), mats=[diag(3, 3, 3)], pm=None, mesh=[4, 4, 4], e=2e-3,
+                      signs=(+1, 0), one_sided=True))
+    cases.append(dict(id=7, entry="sc", S=diag(3, 3, 3), mats=[diag(3, 3, 3)], pm=None, mesh=[4, 4, 4], e=2e-3,
+                      signs=(0, -1), one_sided=True))
     if not ctx.quick:
         cases.append(dict(id=3, entry="bcc", S=diag(2, 2, 2), mats=[diag(2, 2, 2)], pm="I", mesh=[4, 4, 4], e=1e-3))
         cases.append(dict(id=4, entry="cscl", S=diag(2, 2, 2), mats=[diag(2, 2, 2)], pm=None, mesh=[3, 3, 3], e=1e-3))
     observed = []
+    mesh_obs, mesh_cases = [], []
     for cs in cases:
         orc = Oracle(cs["entry"], cs["mats"], seed=ctx.seed * 19 + cs["id"], ctx=ctx)
         uc = orc.unitcell()
         L0 = np.array(uc.cell)
         u = L0[2] / np.linalg.norm(L0[2])                  # strain axis: the third cubic axis
         e = cs["e"]
+        if cs.get("kind") == "shear":                      # shear in the plane of the first two (tetragonal a, b) axes
+            u1, u2 = L0[0] / np.linalg.norm(L0[0]), L0[1] / np.linalg.norm(L0[1])
+            Estr = e * (np.outer(u1, u2) + np.outer(u2, u1))
+        else:
+            Estr = e * np.outer(u, u)                      # uniaxial
         fc_ref = None
 
         def build(sign):
             nonlocal fc_ref
-            F = np.eye(3) + sign * e * np.outer(u, u)      # uniaxial strain along u
+            F = np.eye(3) + sign * Estr
             cell = PhonopyAtoms(symbols=uc.symbols, scaled_positions=uc.scaled_positions, cell=L0 @ F, masses=uc.masses)
             with quiet():
                 ph = Phonopy(cell, supercell_matrix=cs["S"], primitive_matrix=cs["pm"], log_level=0)
@@ -1038,16 +1052,21 @@ def gruneisen_nonhydrostatic(ctx, margins):
                         dlt -= np.rint(dlt)
                         ds = [(dlt + np.array(t)) @ lat for t in IMG27]
                         dmin = min(np.linalg.norm(d) for d in ds)
-                        w = np.mean([(d @ u) ** 2 / (d @ d) for d in ds if np.linalg.norm(d) < dmin + 1e-6])
-                        fc[i, j] *= (1 - 6 * sign * e * w)
+                        w = np.mean([(d @ Estr @ d) / (d @ d) for d in ds if np.linalg.norm(d) < dmin + 1e-6])
+                        fc[i, j] *= (1 - 6 * sign * w)
                 for i in range(nsc):
                     fc[i, i] = 0
                     fc[i, i] = -fc[i].sum(axis=0)
             ph.force_constants = fc
             return ph
 
-        ph0, php, phm = build(0), build(+1), build(-1)
+        sp_, sm_ = cs.get("signs", (+1, -1))
+        ph0, php, phm = build(0), build(sp_), build(sm_)
         strain = (php.primitive.volume - phm.primitive.volume) / ph0.primitive.volume
+        ds_arg = None
+        if cs.get("kind") == "shear":        # a pure shear does not change the volume: the strain increment is handed in
+            strain = 2 * e
+            ds_arg = strain
         fac = ph0.unit_conversion_factor
         flags = dict(orthonormal=True, diagonal=True, perMode=True, split=True, lifted=False)
         worst = dict(orthonormal=0.0, diagonal=0.0, perMode=0.0, split=0.0)
@@ -1119,10 +1138,45 @@ def gruneisen_nonhydrostatic(ctx, margins):
                                            strain=float(strain)))
 
         with quiet():
-            gr = PhonopyGruneisen(ph0, php, phm)
+            gr = PhonopyGruneisen(ph0, php, phm, delta_strain=ds_arg)
             gr.set_mesh(cs["mesh"], is_gamma_center=True, is_mesh_symmetry=False)
-        qpts, _, _, vecs, gam = gr.get_mesh()
+        qpts, wts_f, frq_f, vecs, gam = gr.get_mesh()
         judge(qpts, vecs, gam, "mesh")
+        # symmetry-reduced mesh (the default): which rotations does set_mesh hand down, and does it agree with the full one
+        import phonopy.api_gruneisen as apig
+        seen = {}
+        origGM = apig.GruneisenMesh
+
+        def recGM(*a, **k):
+            seen["rotations"] = None if k.get("rotations") is None else np.array(k["rotations"])
+            return origGM(*a, **k)
+        apig.GruneisenMesh = recGM
+        try:
+            with quiet():
+                gr.set_mesh(cs["mesh"], is_gamma_center=True, is_mesh_symmetry=True)
+        finally:
+            apig.GruneisenMesh = origGM
+        q_r, w_r, f_r, _, g_r = gr.get_mesh()
+        Pm = {None: np.eye(3), "F": np.array([[0, .5, .5], [.5, 0, .5], [.5, .5, 0]]),
+              "I": np.array([[-.5, .5, .5], [.5, -.5, .5], [.5, .5, -.5]])}[cs["pm"]]
+        rots_u = set()
+        for r_ in (seen.get("rotations") if seen.get("rotations") is not None else []):
+            Wu = Pm @ np.array(r_, float) @ np.linalg.inv(Pm)       # primitive-cell basis -> unit-cell basis
+            assert np.abs(Wu - np.rint(Wu)).max() < 1e-9
+            rots_u.add(tuple(tuple(int(v) for v in row) for row in np.rint(Wu)))
+        eq, avg, detail = meshes_agree(np.array(w_r), np.array(f_r), np.array(g_r), np.array(wts_f), np.array(frq_f),
+                                       np.array(gam))
+        upd(margins, "gruneisen_nonhydro_mesh_averages", detail["avg_err"])
+        ctx.count(("gru-nonhydro-meshsym", cs["id"]))
+        if not (eq and avg):
+            ctx.violation("gruneisen:mesh-rotations:mesh-symmetry" if cs.get("one_sided") else
+                          "gruneisen:nonhydrostatic:mesh-symmetry",
+                          "non-hydrostatic volume triple: symmetry-reduced and full mesh disagree (weighted multisets of "
+                          "(frequency, gamma) spectra / weighted averages)",
+                          dict(case=cs, n_reduced=len(q_r), n_full=len(qpts), n_rotations=len(rots_u), **detail))
+        mesh_obs.append(dict(id=cs["id"], rotations=rots_u, reducedEqualsFull=bool(eq), averagesAgree=bool(avg)))
+        mesh_cases.append(dict(id=cs["id"], entry=cs["entry"], kind=cs.get("kind", "uniaxial"),
+                               signs=cs.get("signs", (+1, -1)), one_sided=bool(cs.get("one_sided"))))
         path = [[[0.1, 0.0, 0.0], [0.3, 0.0, 0.0], [0.5, 0.0, 0.0]], [[0.1, 0.1, 0.1], [0.2, 0.2, 0.2], [0.4, 0.4, 0.4]]]
         if cs["pm"] == "F":      # Gamma-X and Gamma-L of the conventional cell in primitive coordinates
             path = [[[0.0, 0.1, 0.1], [0.0, 0.3, 0.3], [0.0, 0.5, 0.5]], [[0.1, 0.1, 0.1], [0.2, 0.2, 0.2], [0.4, 0.4, 0.4]]]
@@ -1149,3 +1203,96 @@ def gruneisen_nonhydrostatic(ctx, margins):
         ctx.violation("gruneisen:nonhydrostatic:" + nm, "GruneisenDegenerate.tla %s fails on recorded results" % nm,
                       dict(invariant=nm, observed=observed))
     ctx.traces += len(observed)
+    for one_sided, prefix in ((False, "gruneisen:nonhydrostatic:"), (True, "gruneisen:mesh-rotations:")):
+        sel = [c_ for c_ in mesh_cases if c_["one_sided"] == one_sided]
+        ids = set(c_["id"] for c_ in sel)
+        if sel:
+            mesh_symmetry_tlc(ctx, sel, [o for o in mesh_obs if o["id"] in ids], prefix)
+
+
+def meshes_agree(w_r, f_r, g_r, w_f, f_f, g_f, tol=1e-6):
+    """reduced mesh (weights w_r) against full mesh: (1) as weighted multisets of per-q (frequency, gamma) spectra,
+    (2) as weighted averages of gamma, gamma^2 and gamma*frequency over the modes above the cutoff."""
+    fmax = max(np.abs(f_f).max(), 1e-12)
+    cut = 1e-2 * fmax
+
+    def sig(f, g):
+        m = f > cut
+        pairs = sorted(zip(np.round(f[m] / fmax, 7), g[m]))
+        return np.array([p[0] for p in pairs]), np.array([p[1] for p in pairs])
+    sf = [sig(f, g) for f, g in zip(f_f, g_f)]
+    sr = [sig(f, g) for f, g in zip(f_r, g_r)]
+    gs = max(max((np.abs(s[1]).max() for s in sf if len(s[1])), default=1.0), 1e-12)
+
+    def same(a, b):
+        return len(a[0]) == len(b[0]) and (len(a[0]) == 0 or (np.abs(a[0] - b[0]).max() <= tol and
+                                                               np.abs(a[1] - b[1]).max() <= tol * gs * 10))
+    ok = int(np.sum(w_r)) == int(np.sum(w_f))
+    worst = None
+    for i, a in enumerate(sr):
+        need = sum(int(w_r[j]) for j, b in enumerate(sr) if same(a, b))
+        have = sum(int(w_f[j]) for j, b in enumerate(sf) if same(a, b))
+        if need != have:
+            ok = False
+            worst = dict(reduced_point=i, weight_in_reduced=need, matching_full_points=have)
+            break
+    def avgs(w, f, g):
+        w = np.array(w, float) / np.sum(w)
+        m = f > cut
+        gm = np.where(m, g, 0.0)
+        return np.array([np.sum(w[:, None] * gm), np.sum(w[:, None] * gm ** 2), np.sum(w[:, None] * gm * f)])
+    a_r, a_f = avgs(w_r, f_r, g_r), avgs(w_f, f_f, g_f)
+    avg_err = float(np.abs(a_r - a_f).max() / max(np.abs(a_f).max(), 1e-12))
+    return ok, avg_err <= 1e-8, dict(avg_err=avg_err, averages_reduced=a_r, averages_full=a_f, multiset_mismatch=worst)
+
+
+CFG_GMS = """SPECIFICATION Spec
+CONSTANTS
+ Cases <- MCCases
+ Observed <- MCObserved
+CHECK_DEADLOCK FALSE
+INVARIANT ReqUsedIsCommon
+INVARIANT PreStrainedLower
+INVARIANT ImplUsedIsCommon
+INVARIANT ConformsUsed
+INVARIANT ImplReducedEqualsFull
+INVARIANT ObservedAll
+"""
+GRAMS = {"sc": I3, "cscl": I3, "naclg": I3, "nacl": I3, "bcc": I3, "tetab": [[4, 0, 0], [0, 4, 0], [0, 0, 5]]}
+
+
+def mesh_symmetry_tlc(ctx, mesh_cases, mesh_obs, prefix):
+    """GruneisenMeshSym.tla: the point groups of the three cells are computed exactly from integer Gram matrices
+    (reference 1000 G, strained 1000 G +/- the strain pattern); the reduced mesh may use their common subgroup."""
+    def grams(c):
+        G0 = (1000 * np.array(GRAMS[c["entry"]])).astype(int)
+        d = np.zeros((3, 3), int)
+        if c["kind"] == "shear":
+            d[0, 1] = d[1, 0] = 1
+        else:
+            d[2, 2] = 1
+        return G0.tolist(), (G0 + c["signs"][0] * d).tolist(), (G0 + c["signs"][1] * d).tolist()
+    ctl = []
+    for c in mesh_cases:
+        g0, gp, gm = grams(c)
+        ctl.append("[id |-> %d, entry |-> %s, G0 |-> %s, Gp |-> %s, Gm |-> %s]" % (c["id"], to_tla(c["entry"]), to_tla(g0),
+                                                                              to_tla(gp), to_tla(gm)))
+
+    def obs_tla(o):
+        return "[id |-> %d, rotations |-> %s, reducedEqualsFull |-> %s, averagesAgree |-> %s]" % (
+            o["id"], "{" + ", ".join(to_tla([list(r) for r in W]) for W in sorted(o["rotations"])) + "}",
+            "TRUE" if o["reducedEqualsFull"] else "FALSE", "TRUE" if o["averagesAgree"] else "FALSE")
+    mc = ("---- MODULE MC_GMS ----\nEXTENDS GruneisenMeshSym\nMCCases == {%s}\nMCObserved == {%s}\n====\n"
+          % (", ".join(ctl), ", ".join(obs_tla(o) for o in mesh_obs)))
+    res = ctx.tlc("MC_GMS", cfg_text=CFG_GMS, extra_files={"MC_GMS.tla": mc}, requirement=False,
+                  extra_args=("-continue",), workers=2, coverage=not ctx.quick)
+    require_actions_fired(ctx, res, "GruneisenMeshSym", ["Groups", "SetMesh"])
+    for nm in sorted(set(n for n, _ in res.violations)):
+        if nm in ("ObservedAll", "PreStrainedLower"):
+            raise tlcmod.MachineryError("GruneisenMeshSym.tla: %s fails" % nm)
+        ctx.violation(prefix + nm, "GruneisenMeshSym.tla %s fails (rotations used for the reduced "
+                      "mesh / reduced versus full mesh)" % nm,
+                      dict(invariant=nm, observed=[dict(id=o["id"], n_rotations=len(o["rotations"]),
+                                                        reducedEqualsFull=o["reducedEqualsFull"],
+                                                        averagesAgree=o["averagesAgree"]) for o in mesh_obs]))
+    ctx.traces += len(mesh_obs)
